@@ -7,6 +7,8 @@
   property oracle only; for SPIKE it is false on the known class F9.
 -/
 import PySpikeVerif.Proofs.Affine
+import PySpikeVerif.Proofs.MirrorIsi
+import PySpikeVerif.Proofs.MirrorSync
 
 namespace PySpike.C08
 open PySpike
@@ -62,5 +64,56 @@ theorem isi_profile_shift (s1 s2 : List Q) (ts te m : Q) :
   have e : aff 1 β = fun x => x + β := by funext x; simp [aff]
   rw [e] at h
   simpa using h
+
+/-! ### time reversal (Proofs/MirrorIsi.lean, Proofs/MirrorSync.lean — work packages B9, B10)
+    `ψ x = ts + te - x`; the mirrored train is `(s.map ψ).reverse`. -/
+
+/-- reflecting all spike times mirrors the ISI-profile: breakpoints mirrored, piece values in
+    reverse order (left and right limits exchanged) -/
+theorem isi_profile_mirror (s1 s2 : List Q) (ts te m : Q) (hlt : ts < te)
+    (h1 : ValidNE s1 ts te) (h2 : ValidNE s2 ts te) :
+    isiProfile (B9_mir ts te s1) (B9_mir ts te s2) ts te m
+      = (((isiProfile s1 s2 ts te m).1.map (B9_psi ts te)).reverse, (isiProfile s1 s2 ts te m).2.reverse) :=
+  isiProfile_mirror s1 s2 ts te m hlt h1 h2
+
+/-- … so the ISI distance is unchanged -/
+theorem isi_distance_mirror (s1 s2 : List Q) (ts te m : Q) (hlt : ts < te)
+    (h1 : ValidNE s1 ts te) (h2 : ValidNE s2 ts te) :
+    (Pwc.mk (isiProfile (B9_mir ts te s1) (B9_mir ts te s2) ts te m).1
+            (isiProfile (B9_mir ts te s1) (B9_mir ts te s2) ts te m).2).avrgAll
+      = (Pwc.mk (isiProfile s1 s2 ts te m).1 (isiProfile s1 s2 ts te m).2).avrgAll :=
+  B9_isiProfile_mirror_avrgAll s1 s2 ts te m hlt h1 h2
+
+/-- the SPIKE-Sync profile is mirrored (same marks and multiplicities, reversed order) … -/
+theorem sync_profile_mirror (s1 s2 : List Q) (ts te mt m : Q)
+    (h1 : StrictSorted s1) (h2 : StrictSorted s2) :
+    coincProfile (B10_mir (ts + te) s1) (B10_mir (ts + te) s2) ts te mt m
+      = ((coincProfile s1 s2 ts te mt m).map fun e => (B10_psi (ts + te) e.1, e.2.1, e.2.2)).reverse :=
+  coincProfile_mirror s1 s2 ts te mt m h1 h2
+
+/-- … the spike-train-order profile is mirrored AND negated … -/
+theorem order_profile_mirror (s1 s2 : List Q) (ts te mt m : Q)
+    (h1 : StrictSorted s1) (h2 : StrictSorted s2) (hne : s1 ≠ [] ∨ s2 ≠ []) :
+    orderProfile (B10_mir (ts + te) s1) (B10_mir (ts + te) s2) ts te mt m
+      = ((orderProfile s1 s2 ts te mt m).map fun e => (B10_psi (ts + te) e.1, -e.2.1, e.2.2)).reverse :=
+  orderProfile_mirror s1 s2 ts te mt m h1 h2 hne
+
+/-- … so the SPIKE-Sync value is unchanged and the order value changes sign -/
+theorem sync_value_mirror_invariant (s1 s2 : List Q) (ts te mt m : Q)
+    (h1 : StrictSorted s1) (h2 : StrictSorted s2) :
+    (Disc.mk (coincProfile (B10_mir (ts + te) s1) (B10_mir (ts + te) s2) ts te mt m)).integralAll
+      = (Disc.mk (coincProfile s1 s2 ts te mt m)).integralAll := sync_value_mirror s1 s2 ts te mt m h1 h2
+theorem order_value_mirror_negated (s1 s2 : List Q) (ts te mt m : Q)
+    (h1 : StrictSorted s1) (h2 : StrictSorted s2) (hne : s1 ≠ [] ∨ s2 ≠ []) :
+    (Disc.mk (orderProfile (B10_mir (ts + te) s1) (B10_mir (ts + te) s2) ts te mt m)).integralAll
+      = (-(Disc.mk (orderProfile s1 s2 ts te mt m)).integralAll.1,
+         (Disc.mk (orderProfile s1 s2 ts te mt m)).integralAll.2) :=
+  order_value_mirror s1 s2 ts te mt m h1 h2 hne
+
+/-- SPIKE mirror: NOT proved and false in general (known finding F9: a train that is a single
+    spike on `t_start` after mirroring); witness decided by the kernel -/
+theorem F9_spike_mirror_fails :
+    (spikeProfile [6] [2, 6] 0 6 0 false).2.1.reverse ≠ (spikeProfile [0] [0, 4] 0 6 0 false).2.2 := by
+  decide +kernel
 
 end PySpike.C08
